@@ -1089,6 +1089,22 @@ func (e *Env) LE(v ssa.Value) LE {
 				atomUnsigned[a] = true
 			}
 			return leAtom(a)
+		case token.QUO, token.SHR:
+			// x / k and x >> s for a non-negative x and a positive constant: q with k*q <= x <= k*q + k - 1 (added by Proves)
+			if k, ok := constInt(v.Y); ok && k > 0 && k < 62 {
+				if v.Op == token.SHR {
+					k = int64(1) << uint(k)
+				}
+				x := e.LE(v.X)
+				if nonNegLE(x) {
+					q := e.atomOf(v)
+					for a := range q.c {
+						quoAtoms[a] = quoDef{x, k}
+						atomUnsigned[a] = true
+					}
+					return q
+				}
+			}
 		}
 	case *ssa.Call:
 		if b, ok := v.Call.Value.(*ssa.Builtin); ok && b.Name() == "len" {
@@ -2478,8 +2494,33 @@ func Proves(facts []Fact, goal LE) bool {
 			ls = append(ls, f.LE)
 		}
 	}
+	// definitions of quotient atoms that occur
+	seen := map[string]bool{}
+	var addQuo func(l LE)
+	addQuo = func(l LE) {
+		for a := range l.c {
+			if d, ok := quoAtoms[a]; ok && !seen[a] {
+				seen[a] = true
+				q := leAtom(a)
+				ls = append(ls, d.x.minus(q.scale(d.k)), q.scale(d.k).addK(d.k-1).minus(d.x))
+				addQuo(d.x)
+			}
+		}
+	}
+	addQuo(goal)
+	for _, l := range append([]LE{}, ls...) {
+		addQuo(l)
+	}
 	return entails(ls, goal, nonNegAtom)
 }
+
+type quoDef struct {
+	x LE
+	k int64
+}
+
+// quoAtoms: atoms that denote floor(x / k) of a non-negative linear x.
+var quoAtoms = map[string]quoDef{}
 
 // libraryFacts: length facts of standard-library results: strings.Split(s, sep) with a non-empty constant sep returns at
 // least one element (so a redundant `len(tokens) == 0` test may be removed without the index becoming unsafe).
